@@ -372,8 +372,31 @@ theorem C05_interval_exponential (c : Cfg) (h0 : 0 < c.initial) (h1 : c.initial 
 
 /-! ## shutdown classification -/
 
-theorem C05_sdFlag_iff (c : Cfg) (e : Env) (s : List Attempt) : ∀ (now cur : Nat) (p : List Nat),
+theorem C05_sdFlag_iff (c : Cfg) (e : Env) (s : List Attempt) (hs : ∀ a ∈ s, a.sd = false) : ∀ (now cur : Nat) (p : List Nat),
     (run c e now cur p s).sdFlag = true ↔ (run c e now cur p s).reason = .shutdown := by
+  induction s with
+  | nil => intro now cur p; simp [run]
+  | cons a as ih =>
+    intro now cur p
+    have ha : a.sd = false := hs a (by simp)
+    simp only [run]
+    split
+    · simp
+    · split
+      · simp
+      · split
+        · simp [ha]
+        · split
+          · simp [ha]
+          · split
+            · rename_i r t _; cases r <;> simp [ha]
+            · exact ih (fun x hx => hs x (by simp [hx])) _ _ _
+
+/-- the direction the property needs, without any hypothesis on the backend's errors: a result whose
+reason is shutdown is shutdown-classified.  (The converse is false of the code and of the model when
+the *backend's* error already contains a shutdown error: every return wraps it with `%w`.) -/
+theorem C05_shutdown_reason_classified (c : Cfg) (e : Env) (s : List Attempt) : ∀ (now cur : Nat) (p : List Nat),
+    (run c e now cur p s).reason = .shutdown → (run c e now cur p s).sdFlag = true := by
   induction s with
   | nil => intro now cur p; simp [run]
   | cons a as ih =>
@@ -1078,7 +1101,7 @@ theorem C05_accepts_sound (c : Cfg) (e : Env) (reason : Reason) (tEnd : Nat) (pe
             simp only [Bool.and_eq_true, beq_iff_eq, Bool.not_eq_true', List.isEmpty_iff] at h
             obtain ⟨⟨⟨⟨rfl, h2⟩, h3⟩, h4⟩, h5⟩ := h
             subst h2 h3 h4 h5
-            exact ⟨⟨[⟨t, tEnd, pl⟩], .raw, tEnd, a.perm, false⟩, by simp [hok, hen], rfl, rfl, rfl, rfl, rfl⟩
+            exact ⟨⟨[⟨t, tEnd, pl⟩], .raw, tEnd, a.perm, a.sd⟩, by simp [hok, hen], rfl, rfl, rfl, rfl, rfl⟩
           · rename_i hen
             split at h
             · rename_i hperm
@@ -1087,7 +1110,7 @@ theorem C05_accepts_sound (c : Cfg) (e : Env) (reason : Reason) (tEnd : Nat) (pe
               subst h2 h3 h5
               have h4' : perm = true := by simpa using h4
               subst h4'
-              exact ⟨⟨[⟨t, tEnd, pl⟩], .perm, tEnd, true, false⟩, by simp [hok, hen, hperm], rfl, rfl, rfl, rfl, rfl⟩
+              exact ⟨⟨[⟨t, tEnd, pl⟩], .perm, tEnd, true, a.sd⟩, by simp [hok, hen, hperm], rfl, rfl, rfl, rfl, rfl⟩
             · rename_i hperm
               simp only [hok, hen, hperm, if_false]
               split at h
@@ -1097,9 +1120,9 @@ theorem C05_accepts_sound (c : Cfg) (e : Env) (reason : Reason) (tEnd : Nat) (pe
                 have : rest = [] := by simpa using hemp
                 subst this
                 subst h2
-                have h3' : sd = (reason == Reason.shutdown) := by simpa using h3
+                have h3' : sd = (reason == Reason.shutdown || a.sd) := by simpa using h3
                 subst h3'
-                exact ⟨⟨[⟨t, fin, pl⟩], reason, tEnd, false, reason == .shutdown⟩, Or.inl ⟨reason, tEnd, h1, rfl⟩, rfl, rfl, rfl, rfl, rfl⟩
+                exact ⟨⟨[⟨t, fin, pl⟩], reason, tEnd, false, reason == .shutdown || a.sd⟩, Or.inl ⟨reason, tEnd, h1, rfl⟩, rfl, rfl, rfl, rfl, rfl⟩
               · simp only [Bool.and_eq_true] at h
                 obtain ⟨h1, h2⟩ := h
                 obtain ⟨tr', a1, a2, a3, a4, a5, a6⟩ := ih _ _ _ _ h2
@@ -1233,5 +1256,48 @@ example : (grpcProcess 14 (some 7)).map Err.throttleDelay = some (some 7) ∧ (g
     (grpcProcess 8 (some 0)).map Err.isPermanent = some false ∧ (grpcProcess 3 (some 5)).map Err.isPermanent = some true ∧
     (grpcProcess 0 none).isNone = true := by decide
 
+
+
+/-- witness for the converse of `C05_shutdown_reason_classified` being false: the backend answers with an error
+that carries a shutdown error and the budget runs out: reason `exhausted`, yet `IsShutdownErr` holds of the result -/
+example : (send exCfg {} [1] (List.replicate 12 { sd := true })).reason = .exhausted ∧
+    (send exCfg {} [1] (List.replicate 12 { sd := true })).sdFlag = true := by decide
+
+/-- **shutdown pending but the budget (or the deadline) check trips first**: the loop answers
+`exhausted` / `deadline`, not shutdown-classified (for a backend error that carries no shutdown error) —
+the order of the checks in `retrySender.Send`; during a drain a persistent queue drops such a request.
+Outside the clause as worded ("a retry *wait* interrupted by shutdown"): no wait begins. -/
+theorem C05_shutdown_pending_but_budget_trips (c : Cfg) (e : Env) (now cur : Nat) (p : List Nat) (a : Attempt) (as : List Attempt) (fin : Nat)
+    (hfin : finish c e now a = some fin) (hen : c.enabled = true) (hok : a.ok = false) (hperm : a.perm = false) (hsd : a.sd = false)
+    (hE : 0 < c.maxElapsed ∧ c.maxElapsed < fin + waitAfter c cur a) :
+    run c e now cur p (a :: as) = { calls := [⟨now, fin, p⟩], reason := .exhausted, tEnd := fin, sdFlag := false } := by
+  have haf : afterFailure c e fin (waitAfter c cur a) = some (.exhausted, fin) := by
+    unfold afterFailure; simp [hE]
+  simp only [waitAfter] at haf
+  simp [run, hfin, hen, hok, hperm, haf, hsd]
+
+/-- shutdown at 0, budget 3 s, throttle 7 s: exhausted, not shutdown-classified -/
+example : (send { exCfg with maxElapsed := 3 } { shutdown := some 0 } [1] [{ throttle := some 7 }]).reason = .exhausted ∧
+    (send { exCfg with maxElapsed := 3 } { shutdown := some 0 } [1] [{ throttle := some 7 }]).sdFlag = false := by decide
+
+/-- `lawAlongB` decides `LawAlong` -/
+theorem C05_lawAlongB_iff (c : Cfg) : ∀ (s : List Attempt) (cur : Nat), lawAlongB c cur s = true ↔ LawAlong c cur s := by
+  intro s
+  induction s with
+  | nil => intro cur; simp [lawAlongB, LawAlong]
+  | cons a as ih =>
+    intro cur
+    simp only [lawAlongB, LawAlong, Bool.and_eq_true, Bool.or_eq_true, beq_iff_eq, decide_eq_true_eq, ih]
+    constructor
+    · rintro ⟨h1, h2⟩
+      refine ⟨fun hn => ?_, h2⟩
+      rcases h1 with h1 | h1
+      · exact absurd h1 hn
+      · exact h1
+    · rintro ⟨h1, h2⟩
+      refine ⟨?_, h2⟩
+      by_cases hn : c.rfNum = 0
+      · exact Or.inl hn
+      · exact Or.inr (h1 hn)
 
 end OtelVerif.C05
